@@ -139,6 +139,14 @@ func runForward(c Case) *ev.Failure {
 	if d := headerDiff("built message", m.Header, &c.Msg, len(b1)); d != "" {
 		return ev.Failf(sigFor(c, "header-differs"), "%s", d)
 	}
+	// the image belongs to the caller: another message serialised and written in between (an
+	// application does that all the time) must not show in what is read back below
+	if other := diam.NewMessage(280, 0x80, 0, 0x0badf00d, 0x0badcafe, p); other != nil {
+		other.NewAVP(264, 0x40, 0, datatype.DiameterIdentity("another.message.example"))
+		other.Serialize()
+		var sink bytes.Buffer
+		other.WriteTo(&sink)
+	}
 	m2, err := diam.ReadMessage(bytes.NewReader(b1), p)
 	if err != nil {
 		return ev.Failf(sigFor(c, "reread-error"), "ReadMessage of the serialised message: %v; wire % x", err, clip(b1))
